@@ -662,6 +662,15 @@ class Interpreter:
             elif isinstance(leaf, CompoundState) and leaf.initial:
                 return MicroStep(entered_states=[leaf.initial])
 
+        # An active orthogonal state must have all its children active, even if it was
+        # entered through one of them (e.g., a transition targeting a nested state).
+        names = set(names)
+        for name in sorted(names, key=lambda s: (-self._statechart.depth_for(s), s)):
+            if isinstance(self._statechart.state_for(name), OrthogonalState):
+                missing = [c for c in self._statechart.children_for(name) if c not in names]
+                if len(missing) > 0:
+                    return MicroStep(entered_states=sorted(missing))
+
         return None
 
     def _apply_step(self, step: MicroStep) -> MicroStep:
